@@ -122,6 +122,14 @@ def renamer (subs : Val → Option SCEV) : Nat → List Val → Val → Regs →
 def Canon.renderSCEV (c : Canon) (s : SCEV) (r : Regs) : String × Regs :=
   s.render (renamer c.sub? MaxRenamerDepth []) r
 
+/-- `Canonicalizer.funcRefName`: the function under analysis is `<self>`, members of its own closure
+    tree are named relative to the outermost enclosing function, everything else by its qualified
+    name (package path and receiver included) -/
+def funcRefName (qualified : String) : FuncRel → String
+  | .self => "<self>"
+  | .localTo suffix => "<local" ++ suffix ++ ">"
+  | .external => qualified
+
 /-- the `*ssa.Const` case of NormalizeOperand -/
 def Canon.renderConst (c : Canon) (k : Const) (context : Instr) : String :=
   if c.policy.shouldAbstract k context then "<" ++ k.typ ++ "_literal>"
@@ -143,10 +151,10 @@ def Canon.normalizeOperand (c : Canon) (v : Option Val) (context : Instr) (r : R
       | .const k => (c.renderConst k context, r)
       | .global pkg name typ => ("<global:" ++ pkg ++ "." ++ name ++ ":" ++ typ ++ ">", r)
       | .builtin name => ("<builtin:" ++ name ++ ">", r)
-      | .func name sig =>
+      | .func qualified sig rel =>
         match r.find? v with
         | some n => (n, r)
-        | none => ("<func_ref:" ++ name ++ ":" ++ sig ++ ">", r)
+        | none => ("<func_ref:" ++ funcRefName qualified rel ++ ":" ++ sig ++ ">", r)
       | _ => normalizeValue v r
 
 /-- NormalizeOperand over a list of operands, left to right -/
@@ -335,10 +343,13 @@ def placeInstr (virtualInstrs : List (Nat × Nat)) (hoisted : List Nat) (i : Ins
   else if hoisted.contains i.id || target != i.blk then (target, .tail)
   else (target, .body)
 
-/-- `reconstructBlockInstructions(fn)` -/
-def reconstructBlockInstructions (f : Func) (virtualized hoisted : List Nat)
+/-- `reconstructBlockInstructions(sortedBlocks)`: the blocks are walked in CANONICAL order, so
+    instructions moved into another block (hoisted calls) are appended in an order that does not
+    depend on go/ssa's block indices -/
+def reconstructBlockInstructions (f : Func) (sorted : List Nat) (virtualized hoisted : List Nat)
     (virtualInstrs : List (Nat × Nat)) : Array (List Instr) :=
-  let placed := (f.instrs.toList.filter (fun i => !virtualized.contains i.id)).map
+  let inOrder := sorted.flatMap (fun b => f.instrs.toList.filter (fun i => i.blk == b))
+  let placed := (inOrder.filter (fun i => !virtualized.contains i.id)).map
     (fun i => (placeInstr virtualInstrs hoisted i, i))
   let pick := fun (b : Nat) (s : Slot) =>
     placed.filterMap (fun e => if e.1.1 == b && e.1.2 == s then some e.2 else none)
@@ -380,23 +391,29 @@ def predIndexOf (predID : String) : Int :=
     | none => -1
   | _ => -1
 
-/-- `writePhi` (`virtualPhiConstants` is never populated) -/
+/-- `writePhi` (`virtualPhiConstants` is never populated): the edges are sorted by canonical
+    predecessor index FIRST and the operands are normalized (hence lazily named) in that order -/
 def Canon.writePhi (c : Canon) (i : Instr) (r : Regs) : String × Regs :=
   let preds := c.fn.preds i.blk
-  let rec edges : List Operand → List Nat → Regs → List PhiEdge × Regs
-    | [], _, r => ([], r)
-    | _ :: _, [], r => ([], r)
-    | e :: es, p :: ps, r =>
+  let rec edges : List Operand → List Nat → List (String × Int × Option Val)
+    | [], _ => []
+    | _ :: _, [] => []
+    | e :: es, p :: ps =>
       let predID := c.blockName p
       let predID := if predID.length < 2 then "b" ++ toString p else predID
-      let (v, r) := c.normalizeOperand e.val i r
-      let (rest, r) := edges es ps r
-      ({ predID := predID, predIndex := predIndexOf predID, value := v } :: rest, r)
-  let (es, r) := edges i.ops preds r
-  let sorted := stableSortBy (fun (a b : PhiEdge) =>
-    if a.predIndex != -1 && b.predIndex != -1 then decide (a.predIndex < b.predIndex)
-    else decide (a.predID < b.predID)) es
-  ("Phi" ++ String.join (sorted.map (fun e => " [" ++ e.predID ++ ": " ++ e.value ++ "]")), r)
+      (predID, predIndexOf predID, e.val) :: edges es ps
+  let es := edges i.ops preds
+  let sorted := stableSortBy (fun (a b : String × Int × Option Val) =>
+    if a.2.1 != -1 && b.2.1 != -1 then decide (a.2.1 < b.2.1)
+    else decide (a.1 < b.1)) es
+  let rec render : List (String × Int × Option Val) → Regs → String × Regs
+    | [], r => ("", r)
+    | e :: rest, r =>
+      let (v, r) := c.normalizeOperand e.2.2 i r
+      let (s, r) := render rest r
+      (" [" ++ e.1 ++ ": " ++ v ++ "]" ++ s, r)
+  let (body, r) := render sorted r
+  ("Phi" ++ body, r)
 
 structure SelectState where
   dir         : String
@@ -613,7 +630,7 @@ def mkCanon (policy : LiteralPolicy) (f : Func) (vcf : VirtualCF) : Canon :=
     virtualBinOps := vcf.virtualBinOps, virtualInstrs := hs.virtualInstrs, hoisted := hs.hoisted,
     virtualized := ivs.virtualized, subs := ivs.subs,
     blockPos := mkBlockPos f.nBlocks sorted,
-    effective := reconstructBlockInstructions f ivs.virtualized hs.hoisted hs.virtualInstrs }
+    effective := reconstructBlockInstructions f sorted ivs.virtualized hs.hoisted hs.virtualInstrs }
 
 /-- `CanonicalizeFunction(fn)` after `ApplyVirtualControlFlowFromState(vcf)` -/
 def canonicalizeFunction (policy : LiteralPolicy) (f : Func) (vcf : VirtualCF) : String :=
